@@ -94,7 +94,10 @@ impl Property for C07 {
                 let mw = MWord::from_asca(&w);
                 match api::apply_rules(&[rule.to_string()], &w) {
                     Err(_) => Outcome::skip("call did not return (C02's business)"),
-                    Ok(Err(e)) => Outcome::skip(&format!("Err:{}", api::err_variant(&e))),
+                    // every variable a restating rule writes back was bound by its own input: "unknown variable / alpha" means a capture was lost on the way
+                    Ok(Err(e)) => { let v = api::err_variant(&e);
+                        if v == "RuleRun(UnknownVariable)" { Outcome::fail("restating rule: a variable bound by the input is unknown when it is written back", json!({"rule": rule, "word": word, "error": format!("{e:?}")})) }
+                        else { Outcome::skip(&format!("Err:{v}")) } }
                     Ok(Ok(g)) => {
                         let g = MWord::from_asca(&g);
                         if g != mw { return Outcome::fail("restating rule changed the word", json!({"rule": rule, "word": word, "before": mw.show(), "after": g.show()})) }
